@@ -21,20 +21,37 @@ THEOREMS = ['C04_max_pattern', 'C04_complement_bits', 'C04_eval_pattern_den', 'C
             'C04_example_care_set_replacement', 'C04_care_set_substitution_truth_table',
             'C04_example_care_set_replacement_truth_table', 'C04_validator_substitution', 'C04_accepted_step_preserves_outputs', 'C04_merge_substitution', 'C04_care_covers_sound',
             'C04_cex_surplus_operand', 'C04_example_ternary_and', 'C04_cex_missing_node', 'C04_example_cone', 'C04_example_simulation', 'C04_example_step_accepted', 'C04_example_step_rejected',
-            'C04_example_care_set_step', 'C04_example_merge']
+            'C04_example_care_set_step', 'C04_example_merge',
+            'C04_check_run_structure', 'C04_validated_run', 'C04_validated_run_semantics', 'C04_validated_run_closed',
+            'C04_example_validated_run', 'C04_example_run_rejected']
 PARTIAL = {
     'C04 (the property as a whole)':
-        'NOT proved for the implementation: minimize_subcircuits depends on an external cut enumerator, on the model '
-        'returned by a SAT solver and on a hand-written search loop (cut filtering, node states, the mixed '
-        'trivial/negated-output branch, _rename_subcircuit_gates); none of that is modelled or verified. The clauses '
-        '"same inputs / outputs / truth table, not more gates, no FailedValidationError, no internal error" are checked '
-        'end to end by the oracle on every run (the root causes found this way are repaired by fixes/D30..D39; their '
-        'failing inputs are kept as a fixed corpus). What is proved: '
-        'the pattern simulation for all widths, the care-set substitution theorem for the function replace_subcircuit '
-        '(one replacement step) and the soundness of a validator for single replacement steps on recorded states',
+        'NOT proved for the implementation as a function: the search of minimize_subcircuits (external cut enumerator, the '
+        'model returned by a SAT solver, the hand-written loop: cut filtering, node states, the mixed trivial / '
+        'negated-output branch, _rename_subcircuit_gates) is not modelled, so there is no theorem "for every argument the '
+        'call returns an equivalent circuit". What is proved instead is a validator for whole recorded runs '
+        '(C04_validated_run: if check_run accepts the argument circuit, the ordered events and the returned circuit, the '
+        'result has the same inputs, number of outputs and truth table), and every run of the check that returns is '
+        'validated with it; the link between a run and its record is the recorder of harness/patcorr.py (trusted, '
+        'and cross-checked by the end-to-end oracle). Still NOT proved and only checked by the oracle on every run: '
+        'that the search terminates without an internal error or FailedValidationError, that a step is found at '
+        'all, and that the result has no more non-trivial gates than the argument (the size clause); runs above '
+        '40 events / 60 gates are not validated end to end (counted as skipped). The root causes found by the oracle '
+        'are repaired by fixes/D30..D39; their failing inputs are kept as a fixed corpus',
 }
 LEVEL_CATEGORY = 'translation_validation'
-LEVEL_TEXT = ('translation validation with a verified validator, plus proof of the pattern simulation. Proved in Coq for '
+LEVEL_TEXT = ('translation validation of WHOLE RUNS with a verified validator, plus proof of the pattern simulation. End to end: '
+              'for every run of minimize_subcircuits that returns, the argument circuit (dumped at the entry), the ordered '
+              'list of events (every replace_subcircuit call that took effect and every trivial-branch merge, each with its '
+              'state before and after, cut leaves, cone outputs, care set) and the returned circuit are printed as a Coq term '
+              'and the executable check_run is evaluated on it: the states chain exactly (circuit_eqb: inputs, outputs, gates, '
+              'users, blocks) from the argument through every event to the result, every event is accepted by its validator '
+              '(check_subst / check_merge + care_covers), the inputs are INPUT gates and the leaves Boolean-valued in every '
+              'intermediate state, argument and result pass wfb and the operand-count check; C04_validated_run proves that an '
+              'accepted run returns a circuit with the same inputs, the same number of outputs, position-wise equal output '
+              'values under every Boolean input vector (relational semantics), equal results of evaluate and an equal truth '
+              'table (both exist). A run that check_run rejects while the oracle passes is reported as a disagreement. '
+              'Besides: proved in Coq for '
               'the model (eval_pattern / max_pattern / _generate_inputs_tt regenerated from the current source by '
               'translator t5, the simulation loops hand-written and compared with _get_subcircuits, _eval_dont_cares, '
               'evaluate_truth_table_with_dont_cares on generated cones): for every cut size the patterns are the truth '
@@ -52,7 +69,9 @@ LEVEL_TEXT = ('translation validation with a verified validator, plus proof of t
               'On every run each Circuit.replace_subcircuit call made by minimize_subcircuits is recorded, replayed through '
               'the model (exact state equality) and accepted by check_subst on all 2^k leaf vectors or on the care set '
               '(with care_covers); each trivial-branch merge is recorded (state before / after) and accepted by '
-              'check_merge. The search is not verified: '
+              'check_merge; then the whole run is accepted by check_run (first on all 2^k leaf vectors for every event, '
+              'else with the recorded care sets). The search is not verified (that it terminates without error, finds a '
+              'step, does not enlarge the circuit): '
               'the end-to-end clauses are checked by brute force on every generated run and on the fixed corpus '
               '(harness/corpus/C04: minimal failing inputs of the defects repaired by fixes/D30..D39)')
 LEVEL_NOTE = ('Coq kernel + vm_compute; translator t5 (Python ast -> Gallina, N arithmetic; UnsupportedOperationError is '
@@ -68,9 +87,16 @@ LEVEL_NOTE = ('Coq kernel + vm_compute; translator t5 (Python ast -> Gallina, N 
               '(needed: C19_replace_subcircuit_arity_needed), acceptance by check_step_map on the care set and care_covers; '
               'for the validator form: acceptance by check_subst and a compared leaf vector under the assignment. The '
               'harness validates recorded steps with check_subst on the states before / after (the replay shows that the '
-              'model function yields exactly the state after)')
-TECHNIQUE = ('proof of the pattern simulation and of a step validator + translation validation of every replacement step '
-             '+ end-to-end oracle')
+              'model function yields exactly the state after). For whole runs (C04_validated_run): WF and arity_ok of the '
+              'ARGUMENT circuit only (both are also evaluated executably by check_run_case, so the harness verdict has no '
+              'hypothesis left: C04_validated_run_closed); nothing is assumed about intermediate states - what the step '
+              'theorems need there (inputs are INPUT gates, the cut leaves carry a compared Boolean vector) and WF / arity_ok '
+              'of the result are executable conjuncts of check_run, because check_subst / check_merge do not establish them '
+              'for the next state. Trusted for the run validation: the recorder (wrapper around minimize_subcircuits that dumps '
+              'the argument at the entry and the result at the return; a replace_subcircuit call that raised, or whose result '
+              'minimize_subcircuits discarded, is not an event), dump_circuit, the Coq term printer')
+TECHNIQUE = ('proof of the pattern simulation, of a step validator and of a whole-run validator (check_run) + translation '
+             'validation of every replacement step and of every whole run end to end + end-to-end oracle')
 TRUSTED = ['hypotheses of C04_eval_pattern_den / C04_patterns_are_truth_tables, each witnessed necessary by a proved '
            'counterexample: (a) pattern_arity_ok: NOT has exactly one operand, GEQ/LT/LEQ/GT exactly two, the six n-ary '
            'types two or more - eval_pattern ignores surplus operands of NOT and of the comparison types '
@@ -127,6 +153,7 @@ def correspondence(ctx, model_ok):
     cases = []
     runs = []
     merges = []
+    records = []    # per run: argument circuit, ordered events, returned circuit (whole-run validation)
     closed = []     # per run: was the supplied cut family closed under sub-cuts
     fixed = corpus_cases()
     for i in range(len(fixed) + ctx.n(250, 3000)):
@@ -138,6 +165,7 @@ def correspondence(ctx, model_ok):
         cases.append(case)
         runs.append((case, rec.steps))
         merges.append((case, rec.merges))
+        records.append(patcorr.run_record(case, rec, res))
         r.add_case({k: v for k, v in case.items()}, res[0] == 'ok')
         r.count('outcome', 'returned' if res[0] == 'ok' else f'{res[1]}@{res[2]}')
         r.count('basis', case['basis'].upper())
@@ -165,12 +193,31 @@ def correspondence(ctx, model_ok):
     # the all-outputs-trivial branch (no replace_subcircuit call): before / after states through check_merge
     for i, st, why in patcorr.validate_merges(ID, r, merges, model_ok):
         judge('trivial-branch validation', i, st, why, merges[i][0])
+    # whole runs, end to end: the argument circuit, the ordered events and the returned circuit of every run that
+    # returned normally through the proved validator check_run (C04_validated_run): the recorded states chain
+    # from the argument to the result and every event is accepted.  Same policy as for single steps: a run that
+    # check_run rejects while the end-to-end oracle passes is a disagreement.
+    runs_validated, rejected_runs = patcorr.validate_runs(ID, r, records, model_ok)
+    for i, why in rejected_runs:
+        case = records[i]['case']
+        msg = oracle(dict(case))
+        if msg is not None:
+            r.count('whole-run validation', 'rejected run that fails end to end: ' + classify(case, msg))
+        else:
+            r.disagreements.append({'name': 'a whole run is rejected by check_run (the recorded steps do not account for '
+                                            'the returned circuit) while its end-to-end oracle passes', 'case': case,
+                                    'detail': {'why': why, 'events': [(k, {f: st[f] for f in st if f in ('imap', 'omap', 'o', 'l')})
+                                                                      for k, st in records[i]['events']]}})
+    r.rule += f'; runs validated end to end by check_run: {runs_validated}'
     # pattern operations, cone simulation, don't-care tables against the model
     patcorr.run_pattern_corr(ctx, ID, r, model_ok)
     r.extra = {'programs': len(runs),
                'disagreements_checked': sum(len(s) for _, s in runs) + sum(len(m) for _, m in merges),
+               'runs_validated_end_to_end': runs_validated,
                'explanation': 'programs = end-to-end minimize_subcircuits runs; disagreements_checked = recorded '
-                              'replace_subcircuit calls + trivial-branch merges replayed through the model and the validator'}
+                              'replace_subcircuit calls + trivial-branch merges replayed through the model and the validator; '
+                              'runs_validated_end_to_end = runs whose whole record (argument circuit, ordered events, '
+                              'returned circuit) is accepted by the proved validator check_run'}
     return r
 
 
